@@ -156,7 +156,12 @@ static Case gen_c14(vh::Rng& r, const std::vector<std::string>& pool) {
   std::string url = proto + "://" + (user.empty() && pass.empty() ? "" : user + (pass.empty() ? "" : ":" + pass) + "@") + host + (port.empty() ? "" : ":" + port) + (path.empty() || path[0] != '/' ? "/" + path : path);
   if (!search.empty() || r.chance(1, 10)) url += "?" + search; if (!hash.empty() || r.chance(1, 10)) url += "#" + hash;
   unsigned w = (unsigned)r.below(10);
-  if (w < 6) { c.push_back("s"); c.push_back(url); c.push_back("\x01NULL"); }
+  if (w < 6) {
+    // absolute URL string; sometimes with a base argument that is irrelevant (valid) or does not parse at all - test() and exec()
+    // must still agree (both treat an unparsable base as "no match")
+    static const char* bases[] = {"not a url", "", "//no-scheme/", "https://exa mple.com/", "http://[::1", "https://example.org/dir/", "foo:opaque", "1http://x/"};
+    c.push_back("s"); c.push_back(url); c.push_back(r.chance(1, 5) ? std::string(r.pick(bases)) : std::string("\x01NULL"));
+  }
   else if (w < 7) { c.push_back("s"); c.push_back(path + (search.empty() ? "" : "?" + search)); c.push_back(proto + "://" + host + "/base/x"); }
   else if (w < 8) { std::string in = r.pick(pool); if (in.size() > 80) in = "https://example.com/"; c.push_back("s"); c.push_back(in); c.push_back("\x01NULL"); }
   else {
